@@ -50,7 +50,7 @@ MANIFEST = {
             "and random histories of validation / checkpoint / kill / stop+resume with k in 1..4 and validation_steps, "
             "checkpoint_steps that are not multiples of k; the driver interprets the *translated* between-table), runs with an "
             "ENABLED GradScaler on CPU, and bit-exact accumulation checks through real Unet2d / RIM (steps 1 and 2) / "
-            "EndToEndVarNet / VSharpNet / Unet2dSSL engines and a Unet2d engine with a sensitivity_model in self.models.",
+            "EndToEndVarNet / VSharpNet / Unet2dSSL / Unet2dJSSL engines and a Unet2d engine with a sensitivity_model in self.models.",
     "note": "Resume inside an accumulation window is a finding (key resume-mid-window): checkpoints do not store gradients, the "
             "first step after such a resume uses (1/k) * sum of only the post-resume batches (theorem "
             "resume_mid_window_first_step, witness resume_mid_window_violates); every other deviation after such a resume "
@@ -87,7 +87,7 @@ RULE = ("toy linear model with L1 sum loss (integer-valued gradients), k in 1..4
         "model, with/without OOM-skipped iterations; histories of 1..3 processes over 9..14 iterations with validation data, "
         "validation_steps and checkpoint_steps in {2,3,4,5,7} that are not multiples of k, start_with_validation, SIGINT kill "
         "before/after backward, clean stop + resume (also inside windows); enabled GradScaler with scales 2..64 and growth "
-        "interval 1..3, with/without clipping; real Unet2d / RIM (steps 1, 2) / EndToEndVarNet / VSharpNet / Unet2dSSL / "
+        "interval 1..3, with/without clipping; real Unet2d / RIM (steps 1, 2) / EndToEndVarNet / VSharpNet / Unet2dSSL / Unet2dJSSL / "
         "Unet2d+sensitivity_model engines on 8x8 two-coil data, k in 1..4, SGD/Adam; non-trivial = k >= 2 and at least one "
         "completed window; distinct = distinct protocol line / oracle configuration")
 EXTRA_LEAN_MODULES = ["DirectVerif.Lemmas.C16Events"]
@@ -946,7 +946,7 @@ def oracle(ctx: Ctx, deep: bool = False):
     # engine with an additional `sensitivity_model` in `self.models` sharing the optimiser
     from props import c16_engines as en
 
-    xcombos = [(e, [2, 3, 4, 2][j]) for j, e in enumerate(en.KINDS)] if not (ctx.thorough or deep) else \
+    xcombos = [(e, [2, 3, 4, 3, 2][j % 5]) for j, e in enumerate(en.KINDS)] if not (ctx.thorough or deep) else \
         [(e, k) for e in en.KINDS for k in (1, 2, 3, 4) for _ in range(2)]
     for i, (kind, k) in enumerate(xcombos):
         total, bs = rng.choice([5, 6, 7]) if k < 4 else 9, rng.randint(1, 2)
